@@ -12,6 +12,7 @@ REGISTRY = {
     'C10': ['any'],
     'C11': ['wait', 'event', 'base_core'],
     'C12': ['core', 'handles'],
+    'C13': ['coro', 'base_core', 'event'],
     'C14': ['coro_mutex'],
     'C16': ['event', 'base_core'],
     'C17': ['fault_sched'],
@@ -164,6 +165,18 @@ CLAIMS = {
         'note': 'Task::Cancel/Detach/ToFuture/Get and Start are in unit handles when registered; "same Result as the eager twin" is the lemma '
                 'that a started chain runs the C02-verified functions.',
         'design': 'DESIGN.md 6 C12',
+    },
+    'C13': {
+        'text': 'Resume-token contracts on every awaiter and on the coroutine promise type, extracted from include/yaclib/coro: AwaitEvent::Impl (Sticky x transfer mode: the suspended coroutine is resumed / '
+                'submitted by exactly the decrement that reaches zero), MultiAwaitAwaiter ready / suspend (continuation recorded before the awaiter gives up its unit; suspends <=> somebody else will reach zero), '
+                'SetCallbacksDynamic (loop contract, any count: counter == still-pending + 1), AwaitSingleAwaiter unique / shared (ready, suspend = attach, resume = value or rethrow, shared never moved), AwaitAwaiter '
+                'inline / sticky (+ Call: Submit on the coroutine\'s own executor), OnAwaiter, AwaitOnEvent::Impl, AwaitOnAwaiter, MultiAwaitOnAwaiter (executor set, exactly one Submit to the named executor, now or '
+                'by the last completer), Yield, CurrentAwaiter, TransferAwaiter / TransferSingleAwaiter (continuation stored, then the head of the Task started exactly once), PromiseType Call / Drop (StopError stored '
+                'and published) / Impl / Here / unhandled_exception / return_value, PromiseTypeDeleter::Delete (frame destroyed by the last reference, once), final-suspend Destroy::await_suspend in all three transfer configurations.',
+        'note': 'The compiler-generated coroutine machinery is axiomatised (resumes immediately iff await_ready or await_suspend returned false; destroy() runs the live locals\' destructors once); the two-party attach / '
+                'complete race is the C01 / C06 word contract (unit base_core), "exactly one decrement reaches zero" the C16 counter lemma; SetCallbacksStatic (fold expression) and get_return_object / initial_suspend '
+                'are not extractable. Replay: the real coroutine layer in a CORO build of the tree under check (replay/coro_await.cpp: all completion orders, executors, stopped executor, 4-thread race).',
+        'design': 'DESIGN.md 6 C13',
     },
     'C14': {
         'text': 'R/G contracts on the coroutine Mutex sender word plus the holder-owned receiver list, for FIFO x Batching x SymmetricTransfer: TryLockAwait / TryLock '
